@@ -477,6 +477,14 @@ func (b *broker) syncSubscribe(subscriber *wamp.Session, msg *wamp.Subscribe, ma
 	b.syncPubSubMeta(wamp.MetaEventSubOnSubscribe, subscriber.ID, sub.id)
 }
 
+// syncHasEventHistory tells if the subscription was created by the event
+// history configuration. Such a subscription stays, with its stored events,
+// when it has no subscribers.
+func (b *broker) syncHasEventHistory(sub *subscription) bool {
+	_, ok := b.eventHistoryStore[sub]
+	return ok
+}
+
 // syncDeleteSubscription removes the the ID->subscription mapping and removes
 // the topic->subscription mapping.
 func (b *broker) syncDelSubscription(sub *subscription) {
@@ -527,7 +535,7 @@ func (b *broker) syncUnsubscribe(subscriber *wamp.Session, msg *wamp.Unsubscribe
 	// If no more subscribers on this subscription, delete subscription and
 	// send on_delete meta event.
 	var delLastSub bool
-	if len(sub.subscribers) == 0 {
+	if len(sub.subscribers) == 0 && !b.syncHasEventHistory(sub) {
 		b.syncDelSubscription(sub)
 		delLastSub = true
 	}
@@ -580,7 +588,7 @@ func (b *broker) syncRemoveSession(subscriber *wamp.Session) {
 		delete(sub.subscribers, subscriber)
 
 		// If no more subscribers on this subscription.
-		if len(sub.subscribers) == 0 {
+		if len(sub.subscribers) == 0 && !b.syncHasEventHistory(sub) {
 			b.syncDelSubscription(sub)
 			// Fired when a subscription is deleted after the last session
 			// attached to it has been removed.
